@@ -98,6 +98,15 @@ Definition obind {X Y : Type} (o : option X) (f : X -> option Y) : option Y :=
 Definition merge_all (ow : bool) (e : pval) (xs : list pval) : option pval :=
   fold_left (fun acc x => obind acc (fun a => merge ow a x)) xs (Some e).
 
+(** [PartialModel.merge (variadic)] exactly as the code computes it: [cls()] for no argument,
+    otherwise [reduce(merge_two, objs)] *starting from the first argument* (not from the
+    empty partial; that the two agree is lemma [merge_star_fold]). *)
+Definition merge_star (ow : bool) (e : pval) (xs : list pval) : option pval :=
+  match xs with
+  | [] => Some e
+  | x :: r => fold_left (fun acc y => obind acc (fun a => merge ow a y)) r (Some x)
+  end.
+
 (** ** The rule of the pinned tree: [return v_new or v_old] *)
 
 Definition truthy (v : pval) : bool :=
@@ -326,6 +335,39 @@ Fixpoint complete_go (ts : list (fkind * ty)) (fs : list (option pval)) {struct 
   | _, _ => false
   end.
 
+(** ** The harvest pipeline ([harvester.harvest])
+
+    [outs] are the partials the sources returned, in the order of the sources (a harvester's
+    [run()] result or the parsed metadata file), each cast to the partial class of the target
+    schema (the identity on values of that class).  They are accumulated with
+    [Partial.merge (variadic)] - *without* overwrite permission - and the result is returned
+    as it is ([return_partial]) or completed with [from_partial]. *)
+Definition harvest (ts : list (fkind * ty)) (return_partial : bool) (outs : list pval) : option pval :=
+  obind (merge_star false (empty_of ts) outs)
+        (fun m => if return_partial then Some m else from_partial (TObj ts) m).
+
+(** ** [ignore_invalid]
+
+    [to_partial(obj, ignore_invalid=True)] validates the raw fields of [obj] against the
+    partial class and keeps the valid ones: a field whose value is not of the field's type is
+    dropped as a whole (a nested object with one bad field is dropped entirely, not repaired).
+    [merge_with(obj, ignore_invalid=True)] casts [obj] that way before merging. *)
+Fixpoint sanitize (ts : list (fkind * ty)) (fs : list (option pval)) {struct ts} : list (option pval) :=
+  match ts with
+  | [] => []
+  | kt :: ts' =>
+      match fs with
+      | Some v :: _ => if has_tyb (snd kt) v then Some v else None
+      | _ => None
+      end :: sanitize ts' (tl fs)
+  end.
+
+Definition to_partial_ii (ts : list (fkind * ty)) (raw : pval) : option pval :=
+  match raw with VObj fs => Some (VObj (sanitize ts fs)) | _ => None end.
+
+Definition merge_ii (ow : bool) (ts : list (fkind * ty)) (a raw : pval) : option pval :=
+  obind (to_partial_ii ts raw) (merge ow a).
+
 (** ** Observation: sets as sorted duplicate-free lists *)
 
 Fixpoint ins (x : Z) (l : list Z) : list Z :=
@@ -422,7 +464,10 @@ Definition of_res (r : option pval) : sx := of_opt of_pval (option_map obs r).
     [(pool ow t (v...))] -> typing of every operand, every [a.b], every [(a.b).c]
                           (equal to [a.(b.c)] by [merge_assoc]), every [a.b] under the pinned rule;
     [(fp t v)]         -> [from_partial], [complete];
-    [(fold ow t (v...))] -> [merge_all] from the empty partial of [t]. *)
+    [(fold ow t (v...))] -> [merge_all] from the empty partial of [t];
+    [(star ow t (v...))] -> [merge_star] ([PartialModel.merge (variadic)] as computed);
+    [(harvest rp t (v...))] -> [harvest];
+    [(ii ow t a raw)]  -> [to_partial_ii raw], [merge_ii ow a raw]. *)
 Definition run_c14 (x : sx) : sx :=
   match x with
   | L [A "tri"; ow; t; a; b; c] =>
@@ -452,6 +497,22 @@ Definition run_c14 (x : sx) : sx :=
       match sx_ty t, sx_pval v with
       | Some t, Some v => L [of_res (from_partial t v); of_bool (complete t v)]
       | _, _ => sx_bad "fp"
+      end
+  | L [A "star"; ow; t; vs] =>
+      match sx_bool ow, sx_ty t, sx_map sx_pval vs with
+      | Some ow, Some (TObj ts), Some vs => of_res (merge_star ow (empty_of ts) vs)
+      | _, _, _ => sx_bad "star"
+      end
+  | L [A "harvest"; rp; t; vs] =>
+      match sx_bool rp, sx_ty t, sx_map sx_pval vs with
+      | Some rp, Some (TObj ts), Some vs => of_res (harvest ts rp vs)
+      | _, _, _ => sx_bad "harvest"
+      end
+  | L [A "ii"; ow; t; a; raw] =>
+      match sx_bool ow, sx_ty t, sx_pval a, sx_pval raw with
+      | Some ow, Some (TObj ts), Some a, Some raw =>
+          L [of_res (to_partial_ii ts raw); of_res (merge_ii ow ts a raw)]
+      | _, _, _, _ => sx_bad "ii"
       end
   | L [A "fold"; ow; t; vs] =>
       match sx_bool ow, sx_ty t, sx_map sx_pval vs with
